@@ -2,12 +2,12 @@ import QG.Model.IntegratorCache
 /-! GENERATED on every run by harness/gen/determinism.py from the source text of
 src/quantum_gates/_gates/integrator.py, src/quantum_gates/_gates/factories.py, src/quantum_gates/_gates/gates.py, src/quantum_gates/_simulation/simulator.py (and a scan of the package).  Do not edit.
 
-`integrate` (line 52): parameters ('integrand', 'theta', 'a'); coerced with `float(...)` first: ('theta', 'a');
+`integrate` (line 52): parameters ('integrand', 'theta', 'a'); coerced with `float(...)` first: ();
 cache key ('integrand', 'theta', 'a') (read and written 2x under the same tuple); asserts ['integrand in self._INTEGRAL_LOOKUP.keys()', 'a > 0'];
 the two integration routines are called with ('integrand', 'theta', 'a') in this order; `self.` attributes read: {'integrate': ['use_lookup', '_cache', '_analytical_integration', '_numerical_integration', '_INTEGRAL_LOOKUP'], '_analytical_integration': ['_RESULT_LOOKUP', '_INTEGRAL_LOOKUP'], '_numerical_integration': ['pulse_parametrization', '_INTEGRAL_LOOKUP']}.
 `_cache`: instance attribute, fresh dict in __init__.
 generator call sites in factories.py: ['np.random.normal:24', 'np.random.normal:50', 'np.random.normal:51', 'np.random.normal:52', 'np.random.normal:99', 'np.random.normal:100', 'np.random.multivariate_normal:254', 'np.random.multivariate_normal:294', 'np.random.normal:484', 'np.random.normal:534', 'np.random.multivariate_normal:614', 'np.random.multivariate_normal:660'].
-`_perform_simulation` (line 248): shot arguments [('data', ('deepcopy', 'data')), ('circ', ('fresh', False, ['int nqubit', 'int depth', 'SHARED self.gates'])), ('device_param', ('deepcopy', 'device_param')), ('psi0', ('deepcopy', 'psi0')), ('qubit_layout', ('deepcopy', 'qubit_layout'))]; sequential loop calls ['_single_shot', 'np.square'];
+`_perform_simulation` (line 248): shot arguments [('data', ('deepcopy', 'data')), ('circ', ('fresh', True, ['int nqubit', 'int depth', 'deepcopy(self.gates)'])), ('device_param', ('deepcopy', 'device_param')), ('psi0', ('deepcopy', 'psi0')), ('qubit_layout', ('deepcopy', 'qubit_layout'))]; sequential loop calls ['_single_shot', 'np.square'];
 `_single_shot` reads ['circ', 'data', 'device_param', 'psi0', 'qubit_layout'] and calls ['_apply_gates_on_circuit', 'circ.statevector', 'np.absolute', 'np.square']; parallel-only shot arguments ['seed'], reseed guarded by their presence: ['seed']. -/
 namespace QG.Gen.Determinism
 open QG.Model.IntegratorCache
@@ -15,7 +15,7 @@ open QG.Model.IntegratorCache
 /-- key tuple, coerced parameters and known integrand names of `Integrator.integrate` -/
 def config : Config :=
   { keyFields := [.integrand, .theta, .a]
-    coerced := [.theta, .a]
+    coerced := []
     known := ["sin(theta/a)**2", "sin(theta/(2*a))**4", "sin(theta/a)*sin(theta/(2*a))**2", "sin(theta/(2*a))**2", "cos(theta/a)**2", "sin(theta/a)*cos(theta/a)", "sin(theta/a)", "cos(theta/(2*a))**2"] }
 /-- the parameters handed to `_analytical_integration` / `_numerical_integration` -/
 def computeArgs : List Field := [.integrand, .theta, .a]
@@ -83,6 +83,6 @@ def scriptLengths : List (String × Nat) :=
 
 /-- how `_perform_simulation` builds the entries of a shot's argument dict -/
 def shotArgs : List (String × ShotArg) :=
-  [("data", .deepcopy), ("circ", .fresh false), ("device_param", .deepcopy), ("psi0", .deepcopy), ("qubit_layout", .deepcopy)]
+  [("data", .deepcopy), ("circ", .fresh true), ("device_param", .deepcopy), ("psi0", .deepcopy), ("qubit_layout", .deepcopy)]
 
 end QG.Gen.Determinism
